@@ -9,10 +9,10 @@ a generic symbol an opaque token.  Alphabet spec: `L:65,67` (LetterAlphabet) / `
 ```
 enc A syms | enc1 A sym | dec A dtype codes | dec1 A code | newalph A | map A B codes | extends A B
 s_new A syms | s_nuc bytes | s_prot bytes | s_str i | s_code i | s_get i idx | s_set i idx sym
-s_slice i a b | s_setslice i a b syms | s_add i j | s_rev i | s_eq i j | s_copy i | s_compl i
+s_slice i a b | s_setslice i a b syms | s_add i j | s_rev i | s_eq i j | s_copy i | s_pickle i | s_deepcopy i | s_compl i
 s_setcode i dtype codes | s_setarr i a b dtype codes | s_valid i
 k_fuse n k dtype codes | k_split n k code | k_kmers n k spacing dtype codes | k_enc A k syms | k_dec A k code
-c_tbl aa starts | c_load id | c_default | c_tr complete met dna | c_get codon
+c_tbl aa starts | c_load id | c_loadname Name~with~blanks | c_default | c_tr complete met dna | c_get codon
 c_derive_map TGA=W,AGA=* | c_derive_starts codons | c_show | c_show2 | c_tr2 complete met dna
 ```
 -/
@@ -203,6 +203,14 @@ def step (st : State) (line : String) : State × String :=
     match i.toNat?.bind (st.regs[·]?) with
     | some s => pushSeq st (.ok s.reverse) showSyms
     | none => pure "ERR:noreg"
+  | ["s_pickle", i] =>      -- pickle / deepcopy: the identity on values (the alphabet is part of the value)
+    match i.toNat?.bind (st.regs[·]?) with
+    | some s => pushSeq st (.ok s) showSyms
+    | none => pure "ERR:noreg"
+  | ["s_deepcopy", i] =>
+    match i.toNat?.bind (st.regs[·]?) with
+    | some s => pushSeq st (.ok s) showSyms
+    | none => pure "ERR:noreg"
   | ["s_copy", i] =>
     match i.toNat?.bind (st.regs[·]?) with
     | some s => pushSeq st (.ok s) showSyms
@@ -294,6 +302,13 @@ def step (st : State) (line : String) : State × String :=
     | .error e => pure (errS e)
   | ["c_load", id] =>
     match id.toNat?.bind findTable with
+    | some r =>
+      match loadRows r with
+      | .ok t => ({ st with table := some t }, "ok " ++ showTable t)
+      | .error e => pure (errS e)
+    | none => pure (errS .valueError)
+  | ["c_loadname", nm] =>      -- `~` stands for a blank
+    match findTableByName (nm.replace "~" " ") with
     | some r =>
       match loadRows r with
       | .ok t => ({ st with table := some t }, "ok " ++ showTable t)
